@@ -16,7 +16,7 @@ class C07(Check):
             "schedule seed/policy, worker count, enumeration permutation and hash seed; non-trivial = first run changed a file; "
             "distinct = by experiment digest")
     assumptions = ["one re-run (the statement is about one)"]
-    budgets = {"quick": {"n": 160, "wall": 170}, "thorough": {"n": 1700, "wall": 1700}}
+    budgets = {"quick": {"n": 165, "wall": 170}, "thorough": {"n": 1700, "wall": 1700}}
 
     def extra_batches(self, tier):
         """one fixed experiment per listed known finding, so that each is demonstrated (or seen fixed) on every run"""
